@@ -59,7 +59,8 @@ PY_BUILTINS = {"len", "min", "max", "abs", "sum", "any", "all", "set", "dict", "
                "round", "divmod", "ord", "chr", "object", "bytes", "complex", "vars", "map", "filter", "pow"}
 SPEC_BUILTINS = {"old", "implies", "iff", "keys", "values_of", "isnan", "isinf", "isfinite", "card", "every",
                  "subset", "forall", "exists", "same", "typeis", "fresh_ref", "disjoint", "seq_eq", "union_all",
-                 "real", "rank", "ite", "inrange", "allocated", "unchanged", "floor", "now"}
+                 "real", "rank", "ite", "inrange", "allocated", "unchanged", "floor", "now", "isdigits", "isneg", "samefp",
+                 "validf", "unq", "isquoted", "cast"}
 
 
 class ExprMixin:
@@ -380,6 +381,22 @@ class ExprMixin:
             if fd is not None:
                 st2, v = self.field_read(st, base.z, t.cls, attr)
                 yield st2, v
+                return
+            cands = [c for c in self.ct.subclasses(t.cls) if c != t.cls and attr in self.ct.classes[c].fields]
+            if len(cands) > 1 and len({str(self.ct.classes[c].fields[attr]) for c in cands}) == 1:
+                # a field that several subclasses declare (with one type): selected by the object's dynamic class;
+                # AttributeError when the object is of none of them
+                conds = [self.type_constraint(st, base.z, c) for c in cands]
+                if not self.spec:
+                    self.raise_(st, "AttributeError", z3.Not(z3.Or(*conds)))
+                    st = st.assume(z3.Or(*conds))
+                    if not self.feasible(st):
+                        return
+                cur, res = st, None
+                for c, cnd in reversed(list(zip(cands, conds))):
+                    cur, v = self.field_read(cur, base.z, c, attr)
+                    res = v if res is None else ite(cnd, v, res)
+                yield cur, res
                 return
             m = self.ct.method(t.cls, attr)
             if m is None:
